@@ -658,3 +658,132 @@ Proof.
   unfold InvL, InvLP. cbn. repeat split; intros; try contradiction; try discriminate;
     match goal with E : [] = ?pre ++ _ :: _ |- _ => destruct pre; discriminate E end.
 Qed.
+
+(* ----------- invariant LD (cf_follow = false): per LINK, at most once, in order *)
+
+Definition lboundP (ps : pstate) (p : N) (d : list dentry) : Prop :=
+  match ps with
+  | PIdle _ => True
+  | PSending n _ rest _ =>
+      NoDup (map snd rest) /\ (forall e, In e rest -> forall x, ~ In (x, snd e, p, n) d)
+  end.
+
+Definition InvLD (s : st) : Prop :=
+  (forall p, lboundP (pubs s p) p (delivered s)) /\
+  (forall l p, strictly_desc (lseqs_of l p (delivered s))).
+
+Lemma lboundP_other ps p q x l n d : p <> q -> lboundP ps q d -> lboundP ps q ((x, l, p, n) :: d).
+Proof.
+  intros Hpq. destruct ps as [m|m snap rest sent]; cbn [lboundP]; [tauto|].
+  intros [H1 H2]. split; [exact H1|].
+  intros e He y [E|Hin]; [inversion E; subst; contradiction|exact (H2 e He y Hin)].
+Qed.
+
+Lemma NoDup_map_inj_on {A B C} (f : A -> B) (g : A -> C) l :
+  NoDup (map f l) -> (forall a b, In a l -> In b l -> g a = g b -> a = b) -> NoDup (map g l).
+Proof.
+  induction l as [|a l IH]; cbn; intros Hf Hg; [constructor|].
+  inversion Hf as [|? ? Hn Hd]; subst. constructor.
+  - rewrite in_map_iff. intros (b & E & Hb).
+    assert (b = a) by (apply Hg; auto). subst. apply Hn. apply in_map. exact Hb.
+  - apply IH; [exact Hd|]. intros x y Hx Hy. apply Hg; right; assumption.
+Qed.
+
+Lemma invLD_step cf s a : InvD s -> InvL s -> InvLD s -> InvLD (step cf s a).
+Proof.
+  intros (D1 & D2 & _ & _) (_ & _ & K3 & _) (H2 & H3).
+  destruct (pub_action a) eqn:Ha.
+  2:{ destruct (step_frame cf s a Ha) as (Ep & Ed & _). unfold InvLD. rewrite Ep, Ed. split; assumption. }
+  destruct a as [| | | | | | | | | |p|p|p]; try discriminate Ha; clear Ha.
+  - destruct (step_begin_spec cf s p) as [E|(n & Ep & _ & Ep' & Ed & _)].
+    { rewrite E. split; assumption. }
+    unfold InvLD. rewrite Ep', Ed. split; [|exact H3].
+    intros q. destruct (N.eq_dec q p) as [->|Hq]; [|rewrite fupd_neq by exact Hq; apply H2].
+    rewrite fupd_eq. cbn [lboundP]. split.
+    + apply (NoDup_map_inj_on fst snd); [exact D1|].
+      intros e1 e2 H1 H2'. apply K3; apply in_or_app; left; assumption.
+    + intros e _ x Hin. specialize (D2 p). rewrite Ep in D2. destruct D2 as [Ha _].
+      specialize (Ha _ _ _ Hin). lia.
+  - destruct (step_deliver_spec cf s p) as [E|(n & snap & y & l & rest & sent & Ep & _ & Hcase)].
+    { rewrite E. split; assumption. }
+    pose proof (D2 p) as Hb. rewrite Ep in Hb. destruct Hb as (_ & Hb2 & _).
+    pose proof (H2 p) as Hl. rewrite Ep in Hl. destruct Hl as [Hl1 Hl2].
+    cbn [map snd] in Hl1. inversion Hl1 as [|? ? Hny Hnr]; subst.
+    unfold InvLD. destruct Hcase as [(Ep' & Ed)|(Ep' & Ed & _)]; rewrite Ep', Ed; split.
+    + intros q. destruct (N.eq_dec q p) as [->|Hq].
+      * rewrite fupd_eq. cbn [lboundP]. split; [exact Hnr|].
+        intros e He x [E|Hin].
+        -- inversion E; subst. apply Hny. apply in_map. exact He.
+        -- exact (Hl2 e (or_intror He) x Hin).
+      * rewrite fupd_neq by exact Hq. apply lboundP_other; [congruence|apply H2].
+    + intros l' q. rewrite lseqs_of_g.
+      destruct (N.eq_dec l' l) as [->|Hxy]; [destruct (N.eq_dec q p) as [->|Hqp]|].
+      * rewrite gseqs_cons_same by reflexivity. apply strictly_desc_cons; [|rewrite <- lseqs_of_g; apply H3].
+        apply gseqs_head. intros [[[x' l'] p'] m] Hin Hk Hp. unfold d_link, d_pub, d_seq in *. cbn in *. subst.
+        assert (m <= n) by exact (Hb2 _ _ _ Hin).
+        assert (m <> n) by (intros ->; exact (Hl2 (y, l) (or_introl eq_refl) x' Hin)). lia.
+      * rewrite gseqs_cons_other by (unfold d_pub; cbn; intros [_ ?]; congruence).
+        rewrite <- lseqs_of_g. apply H3.
+      * rewrite gseqs_cons_other by (unfold d_link; cbn; intros [? _]; congruence).
+        rewrite <- lseqs_of_g. apply H3.
+    + intros q. destruct (N.eq_dec q p) as [->|Hq]; [|rewrite fupd_neq by exact Hq; apply H2].
+      rewrite fupd_eq. cbn [lboundP]. split; [exact Hnr|].
+      intros e He. apply Hl2. right. exact He.
+    + exact H3.
+  - destruct (step_end_spec cf s p) as [E|(n & snap & sent & Ep & Ep' & Ed & _)].
+    { rewrite E. split; assumption. }
+    unfold InvLD. rewrite Ep', Ed. split; [|exact H3].
+    intros q. destruct (N.eq_dec q p) as [->|Hq]; [rewrite fupd_eq; exact I|rewrite fupd_neq by exact Hq; apply H2].
+Qed.
+
+Lemma invLD_init : InvLD init.
+Proof. split; intros; exact I. Qed.
+
+Definition InvFixed (s : st) : Prop := InvD s /\ InvL s /\ InvLD s.
+
+Lemma invFixed_run cf tr : cf_follow cf = false -> InvFixed (run cf tr).
+Proof.
+  intros Hcf. unfold run. apply run_from_inv.
+  - intros s a (HD & HL & HLD). split; [|split].
+    + apply invD_step, HD.
+    + apply invL_step; assumption.
+    + apply invLD_step; assumption.
+  - split; [exact invD_init|split; [exact invL_init|exact invLD_init]].
+Qed.
+
+(* ====================================================== the theorems ===== *)
+
+(* per slot: holds for the code before and after the repair *)
+Lemma at_most_once_in_order_per_slot cf tr x p :
+  strictly_desc (seqs_of x p (delivered (run cf tr))).
+Proof. destruct (invD_run cf tr) as (_ & _ & H & _). apply H. Qed.
+
+(* per link (what a component sees): needs the repair *)
+Lemma at_most_once_in_order cf tr l p : cf_follow cf = false ->
+  strictly_desc (lseqs_of l p (delivered (run cf tr))).
+Proof. intros Hcf. destruct (invFixed_run cf tr Hcf) as (_ & _ & _ & H). apply H. Qed.
+
+(* the pinned code: a clone replaying FollowSubscribe late re-inserts the old slot of a
+   direct link that has meanwhile unsubscribed and subscribed again; the link then gets
+   the next update twice. Schedule = the case `k;c 1;d 1;F 1;c 1;u 0`. *)
+Definition dup_witness : list action :=
+  [AClone; ARoot;                       (* k *)
+   ASendSub 1; ARoot;                   (* c 1 *)
+   ASendUnsub 1; ARoot;                 (* d 1 *)
+   ACloneStep 1;                        (* F 1: FollowSubscribe replayed, process() returns Active *)
+   ASendSub 1; ARoot;                   (* c 1 *)
+   ABegin 0; ADeliver 0; ADeliver 0; AEnd 0].
+
+Lemma follow_replay_refuted :
+  exists cf tr l p, cf_follow cf = true /\ ~ strictly_desc (lseqs_of l p (delivered (run cf tr))).
+Proof.
+  exists (MkCfg 2 true), dup_witness, 1, 0. split; [reflexivity|].
+  vm_compute. intros [H _]. discriminate H.
+Qed.
+
+(* every finished update reached every slot of the snapshot it took, unless the link behind
+   that slot dropped its receiver (disconnected) in the meantime *)
+Lemma finished_update_reached_snapshot cf tr p n snap b e :
+  In (p, n, snap, b) (completed (run cf tr)) -> In e snap ->
+  In (fst e, snd e, p, n) (delivered (run cf tr)) \/ ch_rx (chans (run cf tr) (fst e)) = false.
+Proof. destruct (invD_run cf tr) as (_ & _ & _ & H). intros H1 H2. exact (H p n snap b H1 e H2). Qed.
